@@ -416,8 +416,12 @@ macro_rules! submit_threaded_operation {
             return result_recv;
         }
 
+        // if the operation is accepted by the channel but discarded unprocessed because the client
+        // was closed, dropping the guard still delivers a result
+        let completion_guard = CompletionGuard::new(Box::new(move |res| { result_send.apply(res); }), || { Err(GneissError::new_client_closed()) });
+        let disarm_completion_guard = completion_guard.disarm_handle();
         let response_handler = Box::new(move |res| {
-            result_send.apply(res);
+            completion_guard.complete(res);
             Ok(())
         });
 
@@ -428,6 +432,7 @@ macro_rules! submit_threaded_operation {
 
         let submit_result = $self.operation_sender.send(OperationOptions::$operation_type(boxed_packet, internal_options));
         if let Err(submit_error) = submit_result {
+            disarm_completion_guard.store(true, std::sync::atomic::Ordering::SeqCst);
             late_sender.apply(Err(GneissError::new_operation_channel_failure(submit_error)));
         }
 
@@ -440,8 +445,11 @@ macro_rules! submit_threaded_operation_with_callback {
         let boxed_packet = Box::new(MqttPacket::$packet_type($packet_value));
         validate_packet_outbound(&boxed_packet)?;
 
+        // see submit_threaded_operation: the callback is also invoked if the operation is discarded
+        let completion_guard = CompletionGuard::new(Box::new(move |res| { $completion_callback(res); }), || { Err(GneissError::new_client_closed()) });
+        let disarm_completion_guard = completion_guard.disarm_handle();
         let response_handler = Box::new(move |res| {
-            $completion_callback(res);
+            completion_guard.complete(res);
             Ok(())
         });
 
@@ -452,6 +460,7 @@ macro_rules! submit_threaded_operation_with_callback {
 
         let submit_result = $self.operation_sender.send(OperationOptions::$operation_type(boxed_packet, internal_options));
         if let Err(submit_error) = submit_result {
+            disarm_completion_guard.store(true, std::sync::atomic::Ordering::SeqCst);
             return Err(GneissError::new_operation_channel_failure(submit_error));
         }
 
